@@ -95,7 +95,8 @@ def _run(args):
         pr = cfg.get("prec", 0)
         obj = Sv.CGNEQSolver(tol=tol, max_iter=cfg["max_iter"], preconditioner_rank=(n if pr == "n" else pr), seed=cfg.get("pseed"))
         call = obj.compute
-    before = copy.deepcopy(vars(obj))
+    from .c14 import snap_value, _same_dict
+    before = {k_: snap_value(v_) for k_, v_ in vars(obj).items()}
     # ---- observe (and optionally fault-inject) the micro-solvers by wrapping them from the harness
     micro = {"spd_ok": 0, "spd_fail": 0, "ns_fallback": 0, "qr": 0, "qr_raise": 0}
     RSP = Sv.RandomizedSketchProjectPseudoinverse
@@ -157,7 +158,7 @@ def _run(args):
         RSP._solve_spd_quat, RSP._invert_quat_small = orig_spd, orig_inv
         for mod, oq in qr_mods:
             mod.qr_qua = oq
-    after = vars(obj)
+    after = {k_: snap_value(v_) for k_, v_ in vars(obj).items()}
     Xf = q_to_float(np.asarray(X))
     fin = bool(np.all(np.isfinite(Xf)))
     hist = [float(x) for x in info.get("residual_norms", [])]
@@ -195,7 +196,7 @@ def _run(args):
          "true_res_lg": lg(true_res), "dist_lg": lg(dist),
          "expect_converge": bool(kind == "cgne" and cfg.get("prec", 0) in (0,) and cond <= 1e3 and cfg.get("max_iter", 0) >= 400 and tol >= 1e-8),
          "hist_nonincreasing": bool(all(hist[i + 1] <= hist[i] * (1 + 1e-9) + 1e-15 for i in range(len(hist) - 1))),
-         "config_unchanged": bool(set(before) == set(after) and all(before[k] == after[k] for k in before)),
+         "config_unchanged": bool(_same_dict(before, after)),
          "micro": dict(micro), "updates": int(micro["spd_ok"] + micro["spd_fail"] + micro["qr"]) if kind in ("rsp", "rsp_col", "rsp_row") else -1,
          "skipped": int(micro["qr_raise"]), "inject": dict(inj),
          "seed": seed}
